@@ -44,6 +44,20 @@ on the wire outranks every wildcarded one), and may go to the controller only wh
           any wildcard the specification would honour ranks by its priority field, only the wildcards word 0 outranks; entries whose
           only wildcard bits sit on protocol-ignored fields may rank either way (statement silent).  The same walk gives every
           prefix length 0..63 on each address a single-entry matching check (bit just inside / just below the prefix flipped)
+  part N  header fields the extraction does NOT depend on (mc/refs/c03_invariant.py): every frame kind with ONE header field that is
+          neither a match field nor consulted by the parsing of section 3.4 run through its boundary values - IP total length (as
+          a delimiter of the datagram: headers beyond it are left open), identification, reserved / DF flag, TTL, header checksum,
+          the content of the IP option area for every header length; TCP sequence / ack numbers, reserved bits, every control flag,
+          window, checksum, urgent pointer, every data offset 0..15 (below 5 / past the datagram: transport fields left open), every
+          kind of well-formed and malformed TCP option area for each header length; UDP length field (0, below 8, off by one,
+          maxima) and checksum; ICMP checksum and everything behind the first four bytes (absent, partial, quoted datagrams of every
+          quality); ARP hardware addresses (and foreign hardware / protocol types and lengths: network fields left open); the 802.3
+          length value; padding / trailers behind every kind of frame; UDP payloads no format describes on the ports packet
+          libraries have parsers for; a tag in front of an 802.3 length or of a second tag (only addresses and VLAN fields
+          asserted).  Each derived frame is probed with the single-field matches (frame's value / differing value), the exact match
+          and the catch-all of its parent and must be treated as the parent is.  Plus the value domain `ethpayload` in part V:
+          every registered Ethernet type other than IPv4 / ARP / 802.1Q in front of an ARP body (RARP), a cut IPv4 header, one
+          byte, nothing
 """
 import itertools, os, traceback
 from mc.engine import pmap
@@ -51,6 +65,7 @@ from mc.report import Report
 from mc.refs import ofwire as W
 from mc.refs import refmatch as R
 from mc.refs import c03_domains as D
+from mc.refs import c03_invariant as I
 from mc.refs.reftable import matches as ref_matches, _mask
 from mc.props.c04 import ref_match        # wire match (parsed) -> reference dict with the prerequisite rule
 
@@ -334,6 +349,8 @@ def key_frame (fr):
   """Frame name as used in violation keys: all cuts of one frame share a name (the length is in the replay)."""
   i = fr.name.find("[:")
   if i >= 0: return fr.name[:i] + "[cut]"
+  j = fr.name.find(".")                     # a frame derived from a parent by varying one header field: the family (part N)
+  if 0 <= j < fr.name.find("["): return fr.name[j+1:fr.name.find("[")] + "[*]"
   i = fr.name.find("[")                     # a frame of a value domain: the value is in the replay
   return fr.name if i < 0 else fr.name[:i] + "[*]"
 
@@ -842,18 +859,19 @@ def domain_matches (fields, app, nfields, axis):
   return out
 
 
+DOMAINS = tuple(D.DOMAINS) + tuple(I.DOMAINS)
 _DOMS = {}
 _BYNAME = {}
 def get_domain (dn, thorough):
   """Built once per process (the parent builds them all before the workers are forked)."""
-  if (dn, thorough) not in _DOMS: _DOMS[(dn, thorough)] = dict(D.DOMAINS)[dn](thorough)
+  if (dn, thorough) not in _DOMS: _DOMS[(dn, thorough)] = dict(DOMAINS)[dn](thorough)
   return _DOMS[(dn, thorough)]
 
 
 def domain_items (thorough):
   step = 256 if thorough else 32
   items = []
-  for dn, mk in D.DOMAINS:
+  for dn, mk in DOMAINS:
     n = len(get_domain(dn, thorough).frames)
     items += [("V", dn, lo, min(n, lo + step), thorough) for lo in range(0, n, step)]
   return items
@@ -1359,14 +1377,36 @@ def _work_x (item):
   return _finish(ck)
 
 
+# ---------------------------------------------------------------------------------------------
+# header fields the extraction does not depend on (part N)
+# ---------------------------------------------------------------------------------------------
+def _work_n (item):
+  from mc.env import boot
+  boot()
+  _, gids, thorough = item
+  groups = [I.groups(thorough)[g] for g in gids]
+  frames = []
+  for g in groups: frames += [g.parent] + g.derived
+  ck = Checker(Report(PID, "model_checking"), frames)
+  for g in groups:
+    p = g.parent
+    fields, app = ck.ext[p.name]
+    if p.defined is not None: app = app & p.defined
+    ms = object_matches(fields, app)
+    if p.defined is not None: ms = ms[:-1]              # (no exact match for a frame some of whose fields are left open)
+    for f, mb in ms + [("all", W.match())]:
+      ck.check_match(mb, [p] + g.derived)
+  return _finish(ck)
+
+
 def _work (item):
-  return {"A": _work_a, "P": _work_p, "B": _work_b, "H": _work_h, "O": _work_o, "X": _work_x, "V": _work_v, "E": _work_e}[item[0]](item)
+  return {"N": _work_n, "A": _work_a, "P": _work_p, "B": _work_b, "H": _work_h, "O": _work_o, "X": _work_x, "V": _work_v, "E": _work_e}[item[0]](item)
 
 
 # ---------------------------------------------------------------------------------------------
 def run (cfg):
   rep = Report(PID, "model_checking")
-  bad = R.self_check()
+  bad = R.self_check() + I.self_check()
   for b in bad: rep.error("reference self-check: " + b)
   if bad: return rep
   frames = R.corpus()
@@ -1394,12 +1434,21 @@ def run (cfg):
     items += [("X", (f.name,)) for f in all_frames()] + [("X", ("",))]
   if cfg.only in (None, "V"):
     items += domain_items(thorough)
+  if cfg.only in (None, "N"):
+    ng = len(I.groups(thorough))
+    nstep = cfg.pick(4, 1)
+    items += [("N", tuple(range(i, min(ng, i + nstep))), thorough) for i in range(0, ng, nstep)]
   ech = cfg.pick(4, 32)
   if cfg.only in (None, "E"):
     items += [("E", n, c, ech, thorough) for n in E_FRAMES for c in range(ech)]
   ncp = cfg.pick(2, 4)
-  doms = [get_domain(dn, thorough) for dn, _ in D.DOMAINS]
+  doms = [get_domain(dn, thorough) for dn, _ in DOMAINS]
   ewords = part_e_words(thorough)
+  ngroups = I.groups(thorough)
+  nfam = {}
+  for g in ngroups:
+    for f in g.derived:
+      k = key_frame(f)[:-3]; nfam[k] = nfam.get(k, 0) + 1
   if thorough:
     a_rule = ("counters {0,32}^2 x {V0: the frame's own values, fields the frame lacks carrying non-zero garbage; V0 with wildcarded fields "
               "zeroed; S: V0 with one field replaced by a differing value (2 alternatives for dl_vlan/dl_type/nw_proto, bit 0 / bit 31 "
@@ -1451,7 +1500,14 @@ def run (cfg):
     "counter 1..63) ranks by its priority field, an entry whose only wildcard bits sit on prerequisite-ignored fields may do either; "
     "for the {no bit} words on IP/ARP frames also single-entry matching: addresses as sent / masked, lowest compared bit flipped, "
     "highest ignored bit flipped.  distinct for V/E tables = (part, frame kind, (exactness, honoured wildcards, priority, matches) per "
-    "entry, forwarding entry)"
+    "entry, forwarding entry).  N (mc/refs/c03_invariant.py): %d parent frames (corpus frames and built ones: ICMP echo reply / time exceeded / "
+    "redirect / timestamp, UDP ports 0, a SYN with options, UDP to / from / between the parser ports %s, tagged 802.3 and double-tagged "
+    "frames) and %d frames derived from them by setting ONE header field that the extraction does not consult to each of its boundary "
+    "values (families: %s); each parent's single-field matches (frame's value / a differing value, prerequisites specified), its exact "
+    "match and the catch-all are probed with the parent and all its derived frames; a match is asserted for a derived frame only if "
+    "its participating fields lie in headers that are complete within min(physical length, IP total length) with IHL >= 5 / TCP data "
+    "offset >= 5 (ARP network fields only for Ethernet/IPv4 ARP; behind a tag followed by an 802.3 length or a second tag only "
+    "addresses and VLAN fields); distinct = (frame, participating field set, observation)"
     % (len(frames), ", ".join(f.name for f in frames), a_rule, p_rule, len(COUNTERS) ** 2, list(COUNTERS),
        "/".join(map(str, FLIPS_ALL)), p_vec, depth, len(lookup_alphabet()),
        ", ".join(m for m, _ in lookup_alphabet()), list(PRIORITIES), OUT, len(frames),
@@ -1463,10 +1519,13 @@ def run (cfg):
        len(COUNTERS) ** 2, list(COUNTERS),
        "every word of <=2 bits x every single-axis counter and counter pair; all 2^10 bit words x counters {0,1,8,31,32}^2" if thorough
        else "every word of <=2 bits x counters (0,0)/(8,0)/(0,31)",
-       " in both insertion orders" if thorough else ""))
+       " in both insertion orders" if thorough else "",
+       len(ngroups), "/".join(map(str, I.UDP_PARSER_PORTS)), sum(len(g.derived) for g in ngroups),
+       ", ".join("%s (%d)" % kv for kv in sorted(nfam.items()))))
   rep.bound = dict(value_domain_frames=sum(len(d.frames) for d in doms), near_exact_words=len(ewords), near_exact_frames=len(E_FRAMES),
                    wildcard_bit_words=1024, counter_pairs_A=ncp, counter_pairs_P=len(COUNTERS) ** 2, deviations=cfg.pick(1, 2),
                    frames=len(frames), table_entries=depth, lookup_alphabet=len(kinds),
+                   invariance_parents=len(ngroups), invariance_frames=sum(len(g.derived) for g in ngroups),
                    history_tables=len(history_tables(thorough)), history_frames=len(history_frames()), history_adjacent=cfg.pick(2, 3))
   rep.assumptions = [
     "a field participates iff its wildcard bit is clear (counter < 32) and its prerequisite is specified in the match: network fields "
@@ -1479,7 +1538,11 @@ def run (cfg):
     "value domains: the IPv4 protocol, ARP opcode, ToS byte and ICMP type/code are enumerated completely; VLAN ids, ports and Ethernet "
     "types in the quick tier by every single bit, the extremes and the registered / parser-relevant values (thorough: completely)",
     "among matching entries of equal effective priority either may forward",
-    "VLAN-tagged LLC frames and SNAP with a non-zero OUI are not in the corpus (specification silent)",
+    "VLAN-tagged LLC / SNAP frames and double-tagged frames: only the addresses and the VLAN fields are asserted (the specification "
+    "describes one tag in front of an Ethernet type; the type behind a tag + 802.3 length or a second tag is left open); SNAP with "
+    "a non-zero OUI is not in the corpus",
+    "part N: the fields of a header count as defined only if the header is complete within min(physical frame, IP total length) and "
+    "its own header-length field (IHL, TCP data offset) is at least the minimum; the UDP length field is not a header length",
     "default switch configuration (fragments handled normally, no port flags)",
   ]
   for r in pmap(_work, items, cfg.workers, seed=cfg.seed):
@@ -1523,7 +1586,11 @@ def replay (cfg, data):
       lines.append("%s: %s" % (k, v["what"]))
     return bool(rep.violations), "\n".join(lines)
   frames = dict((f.name, f) for f in all_frames() + R.truncations())
-  fr = frames.get(data["frame"]) or D.frame_by_name(data["frame"])
+  fr = frames.get(data["frame"]) or D.frame_by_name(data["frame"]) or I.frame_by_name(data["frame"])
+  if fr is None:
+    for dn, mk in I.DOMAINS:
+      for th in (False, True):
+        fr = fr or dict((f.name, f) for f in get_domain(dn, th).frames).get(data["frame"])
   if data["kind"] == "rawtable":
     tc = RawTableChecker(rep, [fr])
     entries = tuple((bytes.fromhex(h), int(p), l) for h, p, l in data["entries"])
@@ -1563,7 +1630,7 @@ def replay (cfg, data):
            "  fields per specification: " + ", ".join("%s=%s" % (f, fields[f].hex() if isinstance(fields[f], bytes) else hex(fields[f]))
                                                      for f in FIELDS if f in app)]
   if data["kind"] == "match":
-    ck = Checker(rep, all_frames() + R.truncations())
+    ck = Checker(rep, all_frames() + R.truncations() + [fr])
     mb = bytes.fromhex(data["match"])
     pm = W.parse_match(mb); m = ref_match(pm)
     lines.append("match on the wire: wildcards=%#x %s" % (pm["wildcards"], ", ".join(
